@@ -39,7 +39,8 @@ def _returns_false(cfg, node_ids):
 def run(ck):
     em = ExprModel(ck.repo)
     m = ck.repo.mod(REL)
-    fn = m.func("match_expr")
+    from sa.prenorm import inline_forall_helpers
+    fn = inline_forall_helpers(m.func("match_expr"), dict((q, f) for q, f in m.funcs.items() if "." not in q and q != "match_expr"))
     ts = m.func("test_set")
     ck.rule("R1", "each node-kind branch checks pattern kind, compares non-recursed identity fields, recurses into "
                   "every child and propagates sub-match failure", floor=20)
